@@ -3,9 +3,11 @@
 set -e
 cd "$(dirname "$0")"
 mkdir -p .cache evidence replays
+python3-vt -c "import sys; sys.path.insert(0,'driver'); import translate; translate.regenerate()" || true
 cd coq
-coq_makefile -f _CoqProject -o Makefile > /dev/null
-timeout 3000 make -j16 2>&1 | tail -5
+./mkproject.sh
+timeout 6000 make -j16 -k 2>&1 | tail -5
 cd ../harness
-cp /repo/Cargo.lock Cargo.lock 2>/dev/null || true
+ln -sfn "${VERIF_REPO:-/repo}" ../.cache/repo
+cp "${VERIF_REPO:-/repo}/Cargo.lock" Cargo.lock 2>/dev/null || true
 CARGO_NET_OFFLINE=true RUSTFLAGS="--cfg ohsl_verif" timeout 1500 cargo build --offline 2>&1 | tail -3
